@@ -423,6 +423,27 @@ def run(ctx):
                f"the thread's allowed set is (re)assigned on every path: per path {pc}; insert-if-absent forms used: {lazy or 'none'}" +
                ("" if ok else " - a second pin of the same thread keeps the first affinity"))
 
+    # ---------------- R8b: the answer about THIS thread's pin comes from THIS thread's table on every path, and recording a pin
+    # never discards another instance's record
+    for nm in ("get_pinned_processor_id", "get_pinned_memory_region_id"):
+        gb = prog.one(f"system_hardware::SystemHardware::{nm}")
+        if gb is None:
+            ctx.missing("R8.pin-state-lookups-complete", f"SystemHardware::{nm}")
+            continue
+        ctx.fn(gb)
+        tl = [bb for bb, t in gb.calls() if t["callee"].get("method") in ("with_borrow", "with", "with_borrow_mut", "try_with") and "LocalKey" in callee_key(t["callee"])]
+        pc = path_count(gb, tl)
+        shared = [e for e in __import__("vf.analysis", fromlist=["atomic_events"]).atomic_events(gb)]
+        ok = pc == (1, 1) and not shared
+        ctx.ob("R8.pin-state-lookups-complete", f"{nm}.always-from-the-thread-table", ok, gb.loc(),
+               f"thread-local lookups per normal path {pc}; atomics shared between threads consulted: {[e['op'] for e in shared] or 'none'}" +
+               ("" if ok else " - a flag shared by all threads of the instance lets one thread's (re)pin answer for another thread"))
+    psb = [b for b in prog.bodies if b.key.endswith("system_hardware::PinStateMap::set") and not b.is_closure]
+    for b in psb:
+        dropped = sorted({t["callee"].get("method") for bd in [b] + prog.closures_of(b) for _bb, t in bd.calls()
+                          if t["callee"].get("method") in ("remove", "swap_remove", "truncate", "pop", "drain", "clear", "retain", "split_off", "pop_front")})
+        ctx.ob("R8.pin-state-lookups-complete", "PinStateMap::set.never-evicts", not dropped, b.loc(),
+               f"entry-discarding operations in set(): {dropped or 'none'}" + ("" if not dropped else " - the evicted entry may belong to a live hardware instance the thread is still pinned through"))
     # ---------------- R9: the by-id processor table is filled by id
     fpb = prog.one("system_hardware::SystemHardware::from_platform")
     if fpb is None:
